@@ -117,6 +117,84 @@ func init() {
 		s[n] = nop
 	}
 
+	// ---- sync.Pool with a declared pool contract ----
+	s["(*sync.Pool).Get"] = func(ex *Exec, fr *Frame, st *State, c *callCtx) Val {
+		pc, owner, ownerT := ex.poolOf(fr, st, c)
+		if pc == nil {
+			ex.note("sync.Pool.Get on a pool without pool contract: value unconstrained")
+			return ex.freshVal("poolget", c.results())
+		}
+		en := ex.newEnv(fr, st, ex.preState, nil)
+		en.pkg = pkgOfType(ownerT)
+		YT := en.resolveType(pc.Yields)
+		var v Val
+		switch yt := YT.Underlying().(type) {
+		case *types.Pointer:
+			ref := ex.newRef(st, "pooled")
+			// a pooled object is owned by nobody else: it is modelled as a new object whose fields satisfy the pool invariant
+			ex.storeObj(st, yt.Elem(), ref, ex.freshVal("pooled", yt.Elem()))
+			v = Val{T: YT, L: []string{ref}}
+		case *types.Slice:
+			base := ex.newRef(st, "pooledmem")
+			ex.havocMemBase(st, yt.Elem(), base)
+			ln := ex.fresh("pooledlen", bv64)
+			v = Val{T: YT, L: []string{base, bvLit(0, 64), ln, ln}}
+			ex.assume("true", and(nonNeg(ln), app("bvult", ln, "#x0000100000000000")))
+		default:
+			v = ex.freshVal("pooled", YT)
+		}
+		for _, cl := range pc.Invs {
+			en := ex.newEnv(fr, st, ex.preState, nil)
+			en.pkg = pkgOfType(ownerT)
+			en.vars["x"] = v
+			en.vars["owner"] = Val{T: types.NewPointer(ownerT), L: []string{owner}}
+			t, err := en.evalBool(cl.E)
+			if err != nil {
+				ex.errors = append(ex.errors, fmt.Sprintf("%s: pool invariant: %v", cl.Line, err))
+				continue
+			}
+			ex.assume(st.pc, t)
+		}
+		ex.trusted["sync.Pool: Get returns an object satisfying the declared pool invariant that no one else holds ("+pc.Key+")"] = true
+		// as interface value
+		tag := fmt.Sprint(ex.typeTag("T:" + typeKey(YT)))
+		ls := flatten(YT)
+		if len(ls) == 1 && ls[0].Sort == sInt {
+			return Val{T: c.results().At(0).Type(), L: []string{tag, v.L[0]}}
+		}
+		return Val{T: c.results().At(0).Type(), L: []string{tag, ex.box(YT, v)}}
+	}
+	s["(*sync.Pool).Put"] = func(ex *Exec, fr *Frame, st *State, c *callCtx) Val {
+		pc, owner, ownerT := ex.poolOf(fr, st, c)
+		if pc == nil {
+			return Val{T: types.NewTuple()}
+		}
+		en := ex.newEnv(fr, st, ex.preState, nil)
+		en.pkg = pkgOfType(ownerT)
+		YT := en.resolveType(pc.Yields)
+		x := c.args[1]
+		tag := fmt.Sprint(ex.typeTag("T:" + typeKey(YT)))
+		v := ex.unbox(YT, x.L[1])
+		for _, cl := range pc.Invs {
+			en := ex.newEnv(fr, st, ex.preState, nil)
+			en.pkg = pkgOfType(ownerT)
+			en.vars["x"] = v
+			en.vars["owner"] = Val{T: types.NewPointer(ownerT), L: []string{owner}}
+			t, err := en.evalBool(cl.E)
+			if err != nil {
+				ex.errors = append(ex.errors, fmt.Sprintf("%s: pool invariant: %v", cl.Line, err))
+				continue
+			}
+			o := ex.oblige(fr, st, "pre", "pool-invariant."+cl.Label+"@call:"+pc.Key+".Put", implies(eq(x.L[0], tag), t), c.pos,
+				"object put into "+pc.Key+" must satisfy the pool invariant "+cl.Src+": "+ex.srcLine(c.pos))
+			if o != nil {
+				o.Props = cl.Props
+				o.HasQuant = en.quant
+			}
+		}
+		return Val{T: types.NewTuple()}
+	}
+
 	// ---- atomics ----
 	for _, w := range []struct {
 		n string
@@ -347,6 +425,23 @@ func init() {
 	s["crypto/cipher.AEAD.NonceSize"] = func(ex *Exec, fr *Frame, st *State, c *callCtx) Val { return intVal(bvLit(12, 64)) }
 	s["crypto/cipher.AEAD.Overhead"] = func(ex *Exec, fr *Frame, st *State, c *callCtx) Val { return intVal(bvLit(16, 64)) }
 
+	// ---- key derivation / cipher construction ----
+	s["github.com/zeebo/blake3.DeriveKey"] = func(ex *Exec, fr *Frame, st *State, c *callCtx) Val {
+		ex.havocSlice(st, c.args[2]) // writes the output buffer only
+		return Val{T: types.NewTuple()}
+	}
+	s["golang.org/x/crypto/chacha20poly1305.New"] = func(ex *Exec, fr *Frame, st *State, c *callCtx) Val {
+		okc := eq(c.args[0].L[2], bvLit(32, 64))
+		ref := ex.newRef(st, "aead")
+		// the cipher is bound to the key bytes it was created from (ghost function aeadkey)
+		kf := ex.declFun("aeadkey", []string{sInt}, sInt)
+		ex.assume("true", eq(app(kf, ref), c.args[0].L[0]))
+		e := ex.freshErr(st, "keysize")
+		tag := fmt.Sprint(ex.typeTag("T:*chacha20poly1305.chacha20poly1305"))
+		return tup(Val{T: c.results().At(0).Type(), L: []string{ite(okc, tag, "0"), ite(okc, ref, "0")}},
+			Val{T: errType(), L: []string{ite(okc, "0", e.L[0]), ite(okc, "0", e.L[1])}})
+	}
+
 	// ---- netip ----
 	s["(net/netip.Addr).IsValid"] = func(ex *Exec, fr *Frame, st *State, c *callCtx) Val {
 		return boolV(not(eq("((_ extract 129 128) "+c.args[0].L[0]+")", "#b00")))
@@ -464,4 +559,24 @@ func (ex *Exec) cryptoEvent(fr *Frame, st *State, name string, c *callCtx) {
 // lockEvent is the hook for lock-invariant reasoning.
 func (ex *Exec) lockEvent(fr *Frame, st *State, c *callCtx, t *target, acquire bool) {
 	ex.onLock(fr, st, t, acquire, c.pos)
+}
+
+
+// poolOf finds the pool contract of the receiver of a sync.Pool method call (a struct field of type sync.Pool).
+func (ex *Exec) poolOf(fr *Frame, st *State, c *callCtx) (*PoolContract, string, types.Type) {
+	if len(c.argVals) == 0 {
+		return nil, "", nil
+	}
+	fa, ok := c.argVals[0].(*ssa.FieldAddr)
+	if !ok {
+		return nil, "", nil
+	}
+	ST := fa.X.Type().Underlying().(*types.Pointer).Elem()
+	f := ST.Underlying().(*types.Struct).Field(fa.Field)
+	pc := ex.C.Pools[typeContractKey(ST)+"."+f.Name()]
+	if pc == nil {
+		return nil, "", nil
+	}
+	owner := ex.value(fr, st, fa.X)
+	return pc, owner.L[0], ST
 }
